@@ -122,6 +122,8 @@ type mach struct {
 	execExternal func(fn *ssa.Function) bool
 	// symCall gives the meaning of an interface method called on an opaque object
 	symCall func(m *mach, recv *mSym, method *types.Func, args []mv) (mv, bool)
+	// symFunc gives the meaning of calling an opaque function value
+	symFunc func(m *mach, f *mSym, args []mv) (mv, bool)
 	// onInstr observes every executed instruction (path recording)
 	onInstr func(fr *mframe, in ssa.Instruction)
 }
@@ -1140,6 +1142,13 @@ func (m *mach) invoke(fr *mframe, fn mv, args []mv, env []mv, at ssa.Instruction
 			tp[i] = &mSym{name: fmt.Sprintf("%s.%d", base, i), typ: res.At(i).Type()}
 		}
 		return tp
+	case *mSym:
+		// an opaque function value supplied by the rule
+		if m.symFunc != nil {
+			if r, ok := m.symFunc(m, f, args); ok {
+				return r
+			}
+		}
 	case mNilT:
 		m.throw(m.sym("runtime error: invalid memory address or nil pointer dereference", nil), "call of a nil function at %s", m.c.Pos(at.Pos()))
 	}
